@@ -41,6 +41,35 @@ type obEvidence struct {
 	Pos    string `json:"pos,omitempty"`
 }
 
+// siteKey: the obligation's name with its return / call / instruction ordinal replaced by the text of the source line it sits
+// on ("F#safe/div0@site:<line>", "F#cover/site:<line>"): configuration entries written this way follow their statement when
+// an unrelated edit shifts the ordinals.
+func siteKey(ob *Obligation, repo string) string {
+	text := siteText(ob, repo)
+	if text == "" {
+		return ""
+	}
+	if i := strings.LastIndex(ob.Name, "@"); i >= 0 {
+		return ob.Name[:i+1] + "site:" + text
+	}
+	if i := strings.LastIndex(ob.Name, "#cover/ret"); i >= 0 {
+		return ob.Name[:i+7] + "site:" + text
+	}
+	return ""
+}
+
+func notClaimedOb(cfg *CheckCfg, ob *Obligation, repo string) (string, bool) {
+	if why, ok := notClaimed(cfg, ob.Name); ok {
+		return why, ok
+	}
+	if k := siteKey(ob, repo); k != "" {
+		if why, ok := cfg.NotClaimed[k]; ok {
+			return why, true
+		}
+	}
+	return "", false
+}
+
 func notClaimed(cfg *CheckCfg, name string) (string, bool) {
 	// functions for which only some kinds of obligation are claimed (e.g. a division sweep over large bodies)
 	if i := strings.Index(name, "#"); i > 0 {
@@ -137,7 +166,7 @@ func cmdCheck(args []string) int {
 	// not claimed, not decided)
 	var toSolve []*Obligation
 	for _, ob := range c.Obs {
-		if why, skip := notClaimed(&cfg, ob.Name); skip && why == cfg.ClaimOnlyWhy && cfg.ClaimOnlyWhy != "" {
+		if why, skip := notClaimedOb(&cfg, ob, *repo); skip && why == cfg.ClaimOnlyWhy && cfg.ClaimOnlyWhy != "" {
 			ob.Result = "not-attempted"
 			continue
 		}
@@ -152,6 +181,7 @@ func cmdCheck(args []string) int {
 	nOb, nDis, nViol, nCover, nVac, nCoverUnknown, nCross := 0, 0, 0, 0, 0, 0, 0
 	solverMs := int64(0)
 	var knownHit []string
+	kfUsed := map[string]bool{}
 	var deadReturns []string
 	notClaimedList := map[string]string{}
 	claimOnlySkipped, claimOnlyOpen := map[string]int{}, map[string]int{}
@@ -165,13 +195,17 @@ func cmdCheck(args []string) int {
 				nCoverUnknown++
 			}
 			if ob.Result == "unsat" {
-				if _, skip := notClaimed(&cfg, ob.Name); !skip {
+				if _, skip := notClaimedOb(&cfg, ob, *repo); !skip {
 					if strings.HasSuffix(ob.Name, "#cover/requires") {
 						fmt.Printf("UNDECIDED vacuous: %s: the function's requires clauses are contradictory\n", ob.Name)
 						nVac++
 					} else {
 						deadReturns = append(deadReturns, ob.Name)
-						if _, exp := cfg.ExpectedUnreachable[ob.Name]; !exp {
+						_, exp := cfg.ExpectedUnreachable[ob.Name]
+						if k := siteKey(ob, *repo); !exp && k != "" {
+							_, exp = cfg.ExpectedUnreachable[k]
+						}
+						if !exp {
 							// a return point that the facts at hand exclude: every postcondition there would hold vacuously
 							fmt.Printf("UNDECIDED vacuous: %s: this return is unreachable under the contracts in force (not listed in expected_unreachable)\n", ob.Name)
 							nVac++
@@ -181,7 +215,7 @@ func cmdCheck(args []string) int {
 			}
 			continue
 		}
-		if why, skip := notClaimed(&cfg, ob.Name); skip {
+		if why, skip := notClaimedOb(&cfg, ob, *repo); skip {
 			if why == cfg.ClaimOnlyWhy && cfg.ClaimOnlyWhy != "" {
 				// aggregated: one line per function
 				fn := ob.Name
@@ -216,7 +250,14 @@ func cmdCheck(args []string) int {
 			continue
 		}
 		// failed obligation
-		if ws := c.knownWitness[ob.Name]; len(ws) > 0 && (ob.Result == "sat" || ob.Result == "unknown" || ob.Result == "timeout") {
+		kfName := ob.Name
+		if len(c.knownWitness[kfName]) == 0 {
+			kfName = siteMatch(ob, *repo, kfUsed)
+		}
+		if kfName != "" {
+			kfUsed[kfName] = true
+		}
+		if ws := c.knownWitness[kfName]; len(ws) > 0 && (ob.Result == "sat" || ob.Result == "unknown" || ob.Result == "timeout") {
 			// re-ask with the known witnesses excluded
 			ob2 := *ob
 			ob2.Name = ob.Name + "-minus-known"
@@ -229,7 +270,7 @@ func cmdCheck(args []string) int {
 			solverMs += ob2.Ms
 			if ob2.Result == "unsat" {
 				for _, k := range knownFindings {
-					if k.Obligation == ob.Name && k.Status != "fixed" {
+					if k.Obligation == kfName && k.Status != "fixed" {
 						fmt.Printf("KNOWN-FINDING: property=%s %s (obligation %s fails only for the recorded witness: %s)\n", id, k.What, ob.Name, k.Witness)
 						knownHit = append(knownHit, ob.Name)
 					}
@@ -318,7 +359,7 @@ func cmdCheck(args []string) int {
 			verified := false
 			for _, f := range funcs {
 				p, key := splitKey(f)
-				if p+"."+key == k {
+				if p+"."+key == k && !con.Trusted {
 					verified = true
 				}
 			}
@@ -497,4 +538,51 @@ func runBounded(repo, verif string, bc BoundedCfg) (bool, string, float64) {
 	cmd.Env = goEnv(modfile)
 	out, err := cmd.CombinedOutput()
 	return err == nil, string(out), time.Since(t0).Seconds()
+}
+
+// obStem strips the return / call ordinal from an obligation name: F#post/label@ret11 -> F#post/label@ret.
+func obStem(name string) string {
+	i := strings.LastIndex(name, "@")
+	if i < 0 {
+		return name
+	}
+	return name[:i+1] + strings.TrimRight(name[i+1:], "0123456789")
+}
+
+// siteMatch finds an open known finding for the same function and clause whose recorded site text equals the source line
+// this obligation sits on, and which no obligation has claimed yet in this run. It lets a finding follow its return
+// statement or call when an unrelated edit shifts the ordinals; each entry absorbs at most one obligation, so an additional
+// failing site is still reported.
+func siteText(ob *Obligation, repo string) string {
+	i := strings.LastIndex(ob.Pos, ":")
+	if i < 0 {
+		return ""
+	}
+	var line int
+	fmt.Sscanf(ob.Pos[i+1:], "%d", &line)
+	b, err := os.ReadFile(filepath.Join(repo, ob.Pos[:i]))
+	if err != nil || line <= 0 {
+		return ""
+	}
+	lines := strings.Split(string(b), "\n")
+	if line > len(lines) {
+		return ""
+	}
+	return strings.TrimSpace(lines[line-1])
+}
+
+func siteMatch(ob *Obligation, repo string, used map[string]bool) string {
+	text := siteText(ob, repo)
+	if text == "" {
+		return ""
+	}
+	for _, k := range knownFindings {
+		if k.Status == "fixed" || k.Site == "" || used[k.Obligation] || k.Obligation == ob.Name {
+			continue
+		}
+		if obStem(k.Obligation) == obStem(ob.Name) && k.Site == text {
+			return k.Obligation
+		}
+	}
+	return ""
 }
